@@ -20,6 +20,11 @@ MatObj.tla : object-level semantics of the concrete types as scripts (element ac
              and the "bounds" build.
 CMat.tla   : the same for CDense and the complex wrappers over Gaussian integers (plus Conj, Copy, CEqual,
              CEqualApprox).
+             Stage "refill" (RefillCasesOf): operations that fill the receiver through a special-case path
+             (Pow(a, 0..3), Exp of the zero matrix, Scale(0 / 1 / -1, a), the Copy family, MulTri of diagonal
+             factors, DiagFrom, ...) x light operand representations x EVERY receiver state (zero value, pre-sized
+             junk, view into a junk-filled parent whose slots outside the window must stay, "reset": emptied by
+             Reset() with its old storage reused), not sampled.
 MatFormat.tla : the text printed by mat.Formatted as a TLA+ string-building operator of the abstract
              matrix and the options; every representation of a matrix must print that text.
 """
@@ -55,6 +60,9 @@ OBJ_GROUPS = [("At", 3, 4, True), ("Set", 3, 4, True), ("Meta", 3, 4, False), ("
 # CMat.tla groups
 C_GROUPS = [("At", 3, 4, True), ("Chain", 3, 3, False), ("Conj", 3, 4, False), ("Copy", 3, 4, False),
             ("Shape", 3, 4, False), ("Equal", 2, 3, False), ("View", 3, 4, False)]
+# stage "refill" (MatOps.tla RefillCasesOf): operation groups, each one TLC run with every receiver state
+REFILL_GROUPS = [["Pow", "ExpZero"], ["Scale", "Apply", "CloneFrom", "Copy"], ["ScaleVec", "CloneFromVec", "CopyVec", "ScaleSym", "CopySym"],
+                 ["ScaleTri", "MulTri"], ["CopyTri", "DiagFrom"]]
 FMT_SHARDS = 4
 # calls with mismatched operand shapes (a shape panic is demanded; Equal answers false)
 MISMATCH = ["Add", "Sub", "MulElem", "Equal", "EqualApprox", "Mul", "Stack", "Augment", "MulVec", "AddVec", "SubVec", "MulElemVec",
@@ -101,11 +109,22 @@ def run(ctx):
 
     def one(name, ops, sh, ns, maxn, mism):
         sub = dict(OPS=tla_set(ops), MAXN=maxn, SEED=ctx.seed, SHARD=sh, NSHARDS=ns, MISM=mism,
-                   ALLRS="TRUE" if th else "FALSE", WIDE="TRUE" if th and w_small(name) else "FALSE")
+                   ALLRS="TRUE" if th else "FALSE", WIDE="TRUE" if th and w_small(name) else "FALSE", REFILL="FALSE")
         cases = ctx.gen("matrep/MatOps.tla", "matrep/MatOps.cfg", subst=sub,
                         name="R2 gen %s shard %d/%d n<=%d" % (name, sh, ns, maxn))
         for bn, b in bins.items():
             ctx.replay(b, "matrep", cases, [], name="R2 replay %s shard %d/%d [%s]" % (name, sh, ns, bn))
+
+    # ---- stage "refill": operations that fill the receiver through a special-case path (Pow(a, 0 / 1 / 2),
+    # Scale(0 / 1, a), the Copy family, MulTri of diagonal factors, DiagFrom ...) into EVERY receiver state
+    # (zero value, pre-sized with junk, view into a junk-filled parent), not sampled (both tiers)
+    def refill(ops, maxn):
+        sub = dict(OPS=tla_set(ops), MAXN=maxn, SEED=ctx.seed, SHARD=0, NSHARDS=1, MISM="FALSE", ALLRS="TRUE",
+                   WIDE="TRUE" if th else "FALSE", REFILL="TRUE")
+        cases = ctx.gen("matrep/MatOps.tla", "matrep/MatOps.cfg", subst=sub,
+                        name="R2 gen refill %s n<=%d" % ("+".join(ops), maxn))
+        for bn, b in bins.items():
+            ctx.replay(b, "matrep", cases, [], name="R2 replay refill %s [%s]" % ("+".join(ops), bn))
 
     # ---- object-level scripts (MatObj, CMat) and printed text (MatFormat) -----------
     blk = threading.Lock()      # the bounds build of the quick tier is made by the first job that needs it
@@ -134,7 +153,10 @@ def run(ctx):
     else:
         ojobs += [lambda: fmtshard(ctx.seed % FMT_SHARDS, 3, 5, 6)]
 
-    ctx.parallel([lambda j=j: one(*j) for j in jobs] + ojobs, width=8)
+    rn = 4 if th else 3
+    rjobs = [lambda g=g: refill(g, rn) for g in REFILL_GROUPS]
+
+    ctx.parallel(rjobs + [lambda j=j: one(*j) for j in jobs] + ojobs, width=8)
     ctx.notes.append("representation kinds taken from MatRep.tla AllKinds x Wrappers (84 operand representations "
                      "incl. wrappers); see per-stage distinct_operand_representations")
 
